@@ -2,19 +2,22 @@ package main
 
 import "time"
 
-func init() { checks["C07"] = checkC07 }
+var stdAssumptions = []string{
+	"the Go runner builds paths with the exported ast constructors and records outcomes faithfully",
+	"TLC evaluates the specification correctly; strconv is trusted for json.Number decimal->binary conversion",
+	"object member order: every permutation the specification enumerates is accepted",
+}
 
-// C07: lax absorbs structural mismatches, strict reports each one.
-func checkC07(rc *RunCtx) {
-	consts := map[string]string{"MaxSteps": "2", "MaxNodes": "3"}
+// mcExecCheck is the common shape of the exec-family checks: model-check
+// the MC module (universe + law on the specification), replay the exported
+// universe on the real code, judge every observation with Trace_Exec.
+func mcExecCheck(rc *RunCtx, module string, quick, thorough map[string]string, rule string, jnum bool, prefixes ...string) {
+	consts := quick
 	if rc.Tier == "thorough" {
-		consts = map[string]string{"MaxSteps": "3", "MaxNodes": "4"}
+		consts = thorough
 	}
-	rc.Ev.Assumptions = []string{
-		"the Go runner builds paths with the exported ast constructors and records outcomes faithfully",
-		"TLC evaluates the specification correctly",
-	}
-	if rc.runMC("MC_C07", []string{"Inv"}, consts, 30*time.Minute) == nil {
+	rc.Ev.Assumptions = stdAssumptions
+	if rc.runMC(module, []string{"Inv"}, consts, 60*time.Minute) == nil {
 		return
 	}
 	u, err := rc.loadMCUniverse()
@@ -22,9 +25,46 @@ func checkC07(rc *RunCtx) {
 		rc.infra("universe: %v", err)
 		return
 	}
+	nd := len(u.Docs)
 	u.cross([]bool{true, false})
+	if jnum {
+		m := u.addJNumDocs()
+		for pi := range u.Paths {
+			for di := 1; di <= nd; di++ {
+				if j := m[di]; j != 0 {
+					for _, lax := range []bool{true, false} {
+						u.Cases = append(u.Cases, CaseRef{PI: pi + 1, DI: j, VI: 1, Lax: lax, Zone: "UTC"})
+					}
+				}
+			}
+		}
+	}
 	rc.cov("exhaustive", true)
-	rc.cov("rule", "all accessor/filter chains up to MaxSteps over the 16-step alphabet x all JSON trees up to MaxNodes nodes (plus arrays with an ill-shaped element at each position) x {lax, strict}; a case is non-trivial when the path has at least one step")
-	rc.cov("universe", map[string]any{"paths": len(u.Paths), "docs": len(u.Docs), "constants": consts})
-	rc.execFamily(u, "C07", "C01")
+	rc.cov("rule", rule)
+	rc.cov("universe", map[string]any{"paths": len(u.Paths), "docs": len(u.Docs), "cases": len(u.Cases), "constants": consts})
+	rc.execFamily(u, prefixes...)
+}
+
+func init() {
+	checks["C07"] = func(rc *RunCtx) {
+		mcExecCheck(rc, "MC_C07",
+			map[string]string{"MaxSteps": "2", "MaxNodes": "3"},
+			map[string]string{"MaxSteps": "3", "MaxNodes": "4"},
+			"all accessor/filter chains up to MaxSteps over the 16-step alphabet x all JSON trees up to MaxNodes nodes (plus arrays with an ill-shaped element at each position) x {lax, strict}; distinct cases = distinct (path, document, mode) triples, all non-trivial except the bare $ path",
+			false, "C07", "C01")
+	}
+	checks["C14"] = func(rc *RunCtx) {
+		mcExecCheck(rc, "MC_C14",
+			map[string]string{"MaxLen": "3", "Wide": "FALSE"},
+			map[string]string{"MaxLen": "4", "Wide": "TRUE"},
+			"all arrays of length 0..MaxLen over {null, 1, \"x\", [2], {\"a\":1}} plus non-arrays x subscript lists from abstract bounds (integers and halves from -2..6, last, last-1, last+1, ranges of every pair, lists, non-numeric / multi-valued / out-of-int32 / missing bounds, nested subscripts) x {lax, strict} x {float64, json.Number} documents",
+			true, "C14", "C01")
+	}
+	checks["C15"] = func(rc *RunCtx) {
+		mcExecCheck(rc, "MC_C15",
+			map[string]string{"MaxNodes": "4", "MaxLevel": "3"},
+			map[string]string{"MaxNodes": "5", "MaxLevel": "4"},
+			"all JSON trees up to MaxNodes nodes over {1, \"x\"} with keys {a, b} (empty arrays and objects at every position) x {.*, [*], .**, .**{k}, .**{a to b}, .**{last}, .**{a to last}} for levels 0..MaxLevel, alone and followed by .a / .* x {lax, strict}",
+			false, "C15", "C01")
+	}
 }
